@@ -1,6 +1,7 @@
 package main
 
 import (
+	"go/token"
 	"strings"
 
 	"golang.org/x/tools/go/ssa"
@@ -85,6 +86,22 @@ func checkC09(c *Ctx) {
 		"tokens grow only by floor(elapsed/refill) on the ≥1 edge, are clamped to maxTokens and lastRefill is advanced on that edge",
 		func(t *Trace) string {
 			for i, it := range t.Items {
+				// tokens = min(tokens + n, maxTokens) is the add and the clamp in one store
+				if st, isSt := it.Instr.(*ssa.Store); isSt && strings.HasPrefix(it.Label, "store "+tok+" := ") {
+					if added, ok := c.minClampedAdd(st.Val, it.Frame, tok); ok {
+						if !(strings.Contains(added, "fld:ratelimiter.bucket.lastRefill") && strings.Contains(added, " / fld:ratelimiter.TokenBucketRateLimiter.refillRate") && strings.HasPrefix(added, "(sub(now,")) {
+							return "refill adds a quantity that is not (now-lastRefill)/refillRate: " + added
+						}
+						g, _, ok := c.findRel(t, added, "", 0, i)
+						if !ok || !(g.Pred == "" && !g.Neq && g.Lo == 1 && g.Hi == posInf) {
+							return "refill not guarded by tokensToAdd ≥ 1 (got " + g.String() + ")"
+						}
+						if t.Index("store ratelimiter.bucket.lastRefill := now", i) < 0 {
+							return "refill edge does not advance lastRefill to now (same elapsed time would be credited again)"
+						}
+						continue
+					}
+				}
 				if !strings.HasPrefix(it.Label, "store "+tok+" := (fld:"+tok+" + ") {
 					if strings.HasPrefix(it.Label, "store "+tok+" := ") && it.Frame != nil && strings.HasSuffix(it.Frame.Fn.Name(), "refillTokens") &&
 						it.Label != "store "+tok+" := fld:ratelimiter.TokenBucketRateLimiter.maxTokens" {
@@ -124,6 +141,11 @@ func checkC09(c *Ctx) {
 					for j := 0; j < i; j++ {
 						if strings.HasPrefix(t.Items[j].Label, "store "+tok+" := (fld:"+tok+" + ") {
 							found = true
+						}
+						if st, isSt := t.Items[j].Instr.(*ssa.Store); isSt && strings.HasPrefix(t.Items[j].Label, "store "+tok+" := ") {
+							if _, ok := c.minClampedAdd(st.Val, t.Items[j].Frame, tok); ok {
+								found = true
+							}
 						}
 					}
 					if !found {
@@ -356,4 +378,93 @@ func c09Gate(c *Ctx) {
 
 func itoa(i int64) string {
 	return strings.TrimSpace(strings.Replace(strings.Repeat(" ", 0)+fmtInt(i), " ", "", -1))
+}
+
+// minClampedAdd recognises  min(<tok> + n, maxTokens)  (builtin min or a helper that provably returns
+// the smaller of its two arguments) and returns the descriptor of n.
+func (c *Ctx) minClampedAdd(v ssa.Value, fr *Frame, tok string) (string, bool) {
+	p := c.P
+	call, ok := stripConv(v).(*ssa.Call)
+	if !ok || len(call.Call.Args) != 2 {
+		return "", false
+	}
+	if CalleeName(call) != "builtin:min" {
+		h := StaticFn(call)
+		if h == nil || !p.IsHelios(h) || !isMinLike(p, h) {
+			return "", false
+		}
+	}
+	for _, pair := range [][2]ssa.Value{{call.Call.Args[0], call.Call.Args[1]}, {call.Call.Args[1], call.Call.Args[0]}} {
+		sum, isSum := stripConv(pair[0]).(*ssa.BinOp)
+		if !isSum || sum.Op != token.ADD {
+			continue
+		}
+		if p.Desc(pair[1], fr) != "fld:ratelimiter.TokenBucketRateLimiter.maxTokens" {
+			continue
+		}
+		if p.Desc(sum.X, fr) == "fld:"+tok {
+			return p.Desc(sum.Y, fr), true
+		}
+		if p.Desc(sum.Y, fr) == "fld:"+tok {
+			return p.Desc(sum.X, fr), true
+		}
+	}
+	return "", false
+}
+
+// isMinLike: a two-parameter function that returns its first argument when it is smaller, its second
+// when that is smaller (either when equal), decided by one comparison of the two.
+func isMinLike(p *Program, h *ssa.Function) bool {
+	if len(h.Params) != 2 || h.Signature.Results().Len() != 1 || h.Blocks == nil {
+		return false
+	}
+	var ifs []*ssa.If
+	instrsOf(h, func(in ssa.Instruction) {
+		if ifi, ok := in.(*ssa.If); ok {
+			ifs = append(ifs, ifi)
+		}
+	})
+	if len(ifs) != 1 {
+		return false
+	}
+	ifi := ifs[0]
+	rel, ok := p.RelOf(ifi.Cond, true, nil).Orient("param:"+h.Params[0].Name(), "param:"+h.Params[1].Name())
+	if !ok || rel.Pred != "" || rel.Neq {
+		return false
+	}
+	// what is returned on each edge
+	retOn := func(edge int) ssa.Value {
+		succ := ifi.Block().Succs[edge]
+		var out ssa.Value
+		instrsOf(h, func(in ssa.Instruction) {
+			r, isRet := in.(*ssa.Return)
+			if !isRet || len(r.Results) != 1 {
+				return
+			}
+			v := stripConv(r.Results[0])
+			if phi, isPhi := v.(*ssa.Phi); isPhi && phi.Block() == r.Block() {
+				for i, pred := range phi.Block().Preds {
+					if pred == succ || (pred == ifi.Block() && phi.Block() == succ) {
+						out = stripConv(phi.Edges[i])
+					}
+				}
+				return
+			}
+			if len(succ.Preds) == 1 && succ.Dominates(r.Block()) {
+				out = v
+			}
+		})
+		return out
+	}
+	tRet, fRet := retOn(0), retOn(1)
+	if tRet == nil || fRet == nil {
+		return false
+	}
+	pick := func(d int64) ssa.Value { // a − b = d
+		if d >= rel.Lo && d <= rel.Hi {
+			return tRet
+		}
+		return fRet
+	}
+	return pick(-1) == ssa.Value(h.Params[0]) && pick(1) == ssa.Value(h.Params[1])
 }
